@@ -93,7 +93,8 @@ class Schedule(Target):
     file = CT
     qualname = 'Controller._schedule'
     inline_class = {'this': (CT, 'Controller')}
-    pure = ('FlowIR.ParseProducerReference', 'experiment.model.frontends.flowir.FlowIR.ParseProducerReference')
+    pure = ('FlowIR.ParseProducerReference', 'experiment.model.frontends.flowir.FlowIR.ParseProducerReference',
+            'FlowIR.SplitReplicatedComponentName', 'experiment.model.frontends.flowir.FlowIR.SplitReplicatedComponentName')
     max_paths = 400000
     second_rate = 50             # thorough: every 50th z3 discharge is re-checked by cvc5
     trusted = ["networkx predecessors/nodes", "FlowIR.ParseProducerReference on concrete node names (C09)",
@@ -116,12 +117,14 @@ class Schedule(Target):
         for i in range(n):
             same_stage = c.one_of('p%d.same_stage' % i, [False, True])
             stage = 1 if same_stage else 0
-            name = 'stage%d.p%d' % (stage, i)
             st = c.enum('p%d.state' % i, STATES)
             # (whether a producer is a replica only matters to an aggregating consumer)
-            p = make_component(c, name, stage, state=st,
-                               isReplicating=c.one_of('p%d.replica' % i, [False, True]) if is_agg else False,
-                               isLooping=False)
+            is_rep = c.one_of('p%d.replica' % i, [False, True]) if is_agg else False
+            # replicas of the SAME component (p0, p1, ...) or of different ones (p0, q1): the rule speaks of all replicated
+            # inputs together, not per replicated component (seed C02r8)
+            base = c.one_of('p%d.replica_of' % i, ['p', 'q']) if (is_rep and i > 0) else 'p'
+            name = 'stage%d.%s%d' % (stage, base, i)
+            p = make_component(c, name, stage, state=st, isReplicating=is_rep, isLooping=False)
             # finish() has been CALLED on the first producer but its state has not changed yet (finish is asynchronous):
             # that producer is not done -- only comp_done / a final state counts
             if i == 0:
